@@ -20,7 +20,7 @@ def _funcs():
             m.VbsReader.__next__, m.Block1014.write, m.Unblock1014.read, i.dumps, i.loads]
 
 
-def roundtrip(nrec, enc, blocked, cfgs=None, shapes=None, maxvar1=-1):
+def roundtrip(nrec, enc, blocked, cfgs=None, shapes=None, maxvar1=-1, maxrec=False):
     def h():
         core.FUEL.set(30)
         m = M().mciipm
@@ -31,11 +31,15 @@ def roundtrip(nrec, enc, blocked, cfgs=None, shapes=None, maxvar1=-1):
                 bits = choose('shape%d' % i, shapes or SHAPES)
             else:
                 bits = sorted(int(k) for k in cfgs)
-            msg, elems = build_message(bits, cfgs=cfgs, tag='_r%d' % i, maxvar=(400 if nrec > 1 else None) if maxvar1 == -1 else 992)
+            msg, elems = build_message(bits, cfgs=cfgs, tag='_r%d' % i, maxvar=(400 if nrec > 1 else None) if maxvar1 == -1 else 999)
             recs.append((msg, elems))
 
         def rp():
             return {'kind': 'roundtrip', 'args': {'msgs': [msg_witness(mm, ee, ev) for mm, ee in recs], 'enc': enc, 'blocked': blocked, 'cfg': cfgs or 'packaged'}}
+        if maxrec:
+            # messages up to the configured maximum record length (larger ones cannot be read back by design)
+            for msg, _ in recs:
+                assume(rlen(M().iso8583.dumps(dict(msg), encoding=enc, iso_config=cfgs)) <= 6000)
         with guard('IpmWriter', 'C06/write-exception', rp):
             w = m.IpmWriter(f, encoding=enc, blocked=blocked, iso_config=cfgs)
             for msg, _ in recs:
@@ -188,6 +192,10 @@ def obligations(tier):
     for enc, blocked in (('latin_1', True), ('cp500', True), ('cp037', False)):
         obs.append(Ob('rt1-long/%s/%s' % (enc, '1014' if blocked else 'vbs'), roundtrip(1, enc, blocked, shapes=LONG, maxvar1=None), 900,
                       'one long message (shapes %s, every length up to 999 / 992 each: records up to ~4000 bytes over several blocks)' % LONG, _funcs))
+    MAXSHAPE = [[54, 63, 72, 111, 127, 'PDS0001']]
+    for enc, blocked in ((('cp500', False),) if q else (('cp500', False), ('latin_1', True))):
+        obs.append(Ob('rt1-max/%s/%s' % (enc, '1014' if blocked else 'vbs'), roundtrip(1, enc, blocked, shapes=MAXSHAPE, maxvar1=None, maxrec=True), 1200,
+                      'one message of up to exactly the maximum record length (6000 bytes): five LLLVAR elements and a PDS entry of every length', _funcs))
     for blocked in (False, True):
         obs.append(Ob('isolation/configs/%s' % ('1014' if blocked else 'vbs'), configs_isolated(blocked), 300,
                       'packaged and caller-supplied configuration (same element numbers, DE48 plain text) used in one process, both orders', _funcs))
